@@ -1,5 +1,6 @@
 (* Proofs/CheckC18Graph.v — (group hI) what an accepted verdict of check_C18 means for
-   op 4 (MakeBiGraph), op 5 (Equal) and op 6 (SimplifyMulti): the line parses to its end, the
+   op 4 (MakeBiGraph), op 5 (Equal) and op 6 (SimplifyMulti): the rest of the line is exactly the stated
+   encoding (nothing left over), the
    graph is well-formed, the call returned, the purity flags are 1 and every observed list equals
    the SPECIFICATION-level value (transpose with multiplicity / multiset equality of adjacency
    lists / first-occurrence order with summed weights); the executable models of Model/Graph.v are
@@ -9,13 +10,21 @@ From MM Require Import Base.Num Base.GCGraph Model.Graph Proofs.Graph Check.C18 
 Local Open Scope Z_scope.
 
 (* ====================================================================== op 5: Equal *)
-Definition parse_equal : parser (graph * graph * Z * Z * Z) :=
-  do g1 <- p_graph; do g2 <- p_graph; do status <- pZ; do res <- pZ; do pure <- pZ; pend (g1, g2, status, res, pure).
-
+(* the rest of the line: g1 g2 status=0 result result21 pure=1 and the two argument graphs as they are
+   after the calls (equal to what they were before) *)
 Definition equal_case_ok (rest : list Z) : Prop :=
-  exists g1 g2 res, parse_equal rest = Some ((g1, g2, 0, res, 1), []) /\   (* status 0: returned; pure 1: arguments unchanged *)
+  exists g1 g2 res, rest = enc_graph g1 ++ enc_graph g2 ++ 0 :: res :: res :: 1 :: enc_graph g1 ++ enc_graph g2 /\
     g_wf g1 /\ g_wf g2 /\ (res = 0 \/ res = 1) /\
+    (* Equal(g1,g2) = Equal(g2,g1) = res *)
     (res = 1 <-> (length g1 = length g2 /\ forall i, Permutation (g_out g1 i) (g_out g2 i))).
+
+Lemma g_equal_sym : forall g1 g2, g_equal g2 g1 = g_equal g1 g2.
+Proof.
+  intros g1 g2. destruct (g_equal g1 g2) eqn:E.
+  - apply g_equal_spec in E. apply g_equal_spec. destruct E as [E1 E2]. split; [auto|]. intro i. symmetry. apply E2.
+  - destruct (g_equal g2 g1) eqn:E'; [|reflexivity]. apply g_equal_spec in E'. rewrite <- E. symmetry. apply g_equal_spec.
+    destruct E' as [E1 E2]. split; [auto|]. intro i. symmetry. apply E2.
+Qed.
 
 Theorem check_equal_sound : forall l c tag pos diag r,
   check_equal l = Some (verdict c tag pos diag, r) -> c = 0 \/ c = 1 -> c = 0 /\ r = [] /\ equal_case_ok l.
@@ -24,21 +33,19 @@ Proof.
   destruct (g_wfb a && g_wfb a0) eqn:Ewf; cbn [negb] in Ev; [|rejected Ev].
   apply andb_prop in Ewf. destruct Ewf as [W1 W2]. apply g_wfb_spec in W1, W2.
   cbv zeta in Ev. apply ok_or_mismatch in Ev; [|exact Hc]. destruct Ev as [W ->]. ff_split W.
-  repeat match goal with H : (_ =? _) = true |- _ => apply Z.eqb_eq in H end. subst.
+  repeat match goal with H : (_ =? _) = true |- _ => apply Z.eqb_eq in H end.
+  geq. rewrite (g_equal_sym a a0) in *. subst.
   split; [reflexivity|]. split; [reflexivity|].
-  exists a, a0, (if g_equal a a0 then 1 else 0). split; [unfold parse_equal; prebuild|].
+  exists a, a0, (if g_equal a a0 then 1 else 0). split; [lay; subst; rewrite ?app_nil_r; reflexivity|].
   split; [exact W1|]. split; [exact W2|]. split; [destruct (g_equal a a0); auto|].
   rewrite <- g_equal_spec. destruct (g_equal a a0); split; intro; try reflexivity; discriminate.
 Qed.
 
 (* ====================================================================== op 4: MakeBiGraph *)
-Definition parse_bigraph : parser (graph * Z * list (list Z) * Z * Z * Z) :=
-  do g <- p_graph; do status <- pZ; do ins <- plist_any p_Zs; do outsame <- pZ; do idem <- pZ; do pure <- pZ;
-  pend (g, status, ins, outsame, idem, pure).
-
-(* ins = In(0), In(1), ..., In(n-1) as observed; outsame/idem/pure = 1 *)
+(* the rest of the line: g, status 0, In(0..n-1) of the result, NumNodes/Out(0..) of the result (= g),
+   idem = 1 (MakeBiGraph(b) == b), pure = 1, the argument after the call (= g) *)
 Definition bigraph_case_ok (rest : list Z) : Prop :=
-  exists g insN, parse_bigraph rest = Some ((g, 0, map ZsN insN, 1, 1, 1), []) /\
+  exists g insN, rest = enc_graph g ++ 0 :: enc_Zss (map ZsN insN) ++ enc_graph g ++ 1 :: 1 :: enc_graph g /\
     g_wf g /\ length insN = length g /\
     (* In(j) holds i exactly as often as Out(i) holds j, and lists its sources in ascending order *)
     (forall i j, (j < length g)%nat -> count_occ N.eq_dec (nth j insN []) i = count_occ N.eq_dec (g_out g i) (N.of_nat j)) /\
@@ -64,7 +71,7 @@ Proof.
   match goal with H : (_ =? _)%nat = true |- _ => apply Nat.eqb_eq in H; rename H into HL end.
   match goal with H : match lists_match ?f ?o ?j with _ => _ end = true |- _ =>
     destruct (lists_match f o j) eqn:LM; [discriminate|] end.
-  subst. split; [reflexivity|]. split; [reflexivity|].
+  geq. subst. split; [reflexivity|]. split; [reflexivity|].
   pose proof (lists_match_None _ _ _ LM) as HM. cbn beta in HM.
   set (insN := map (fun j => bi_in a (N.of_nat j)) (seq 0 (length a))).
   assert (Eins : a1 = map ZsN insN).
@@ -73,7 +80,7 @@ Proof.
     - rewrite (HM _ _ Ek). assert (k < length a)%nat by (rewrite <- HL; apply nth_error_Some; congruence).
       symmetry. apply (map_nth_error (fun j => ZsN (bi_in a (N.of_nat j))) k (seq 0 (length a))). apply (nth_error_seq _ 0 _ H).
     - symmetry. apply nth_error_None. rewrite map_length, seq_length. rewrite <- HL. apply nth_error_None. exact Ek. }
-  exists a, insN. split; [unfold parse_bigraph; prebuild; rewrite Eins; reflexivity|].
+  exists a, insN. split; [rewrite <- Eins; lay; subst; rewrite ?app_nil_r; reflexivity|].
   split; [exact Ewf|]. split; [unfold insN; rewrite map_length, seq_length; reflexivity|]. split.
   - intros i j Hj. unfold insN.
     rewrite (nth_indep _ [] (bi_in a (N.of_nat 0))) by (rewrite map_length, seq_length; exact Hj).
@@ -83,10 +90,6 @@ Qed.
 
 (* ====================================================================== op 6: SimplifyMulti *)
 Local Open Scope Q_scope.
-Definition parse_simplify : parser (graph * Z * list (list Z) * Z * graph * list (list Z) * Z) :=
-  do g <- p_graph; do weighted <- pZ; do ws <- plist_any p_Zs; do status <- pZ;
-  do rg <- p_graph; do rws <- plist_any p_Zs; do pure <- pZ; pend (g, weighted, ws, status, rg, rws, pure).
-
 (* a weighted adjacency list is the targets [ts] paired with the float64 bit patterns [ws], all finite *)
 Definition wadj_decodes (ts : list N) (ws : list Z) (a : wadj) : Prop :=
   map fst a = ts /\ Forall2 (fun w q => decode_bits w = XFin q) ws (map snd a).
@@ -153,9 +156,10 @@ Qed.
 (* weighted = 0: a plain multigraph, every edge has weight 1, the merged weight is the multiplicity;
    otherwise the weights are the decoded float64 values (the generator emits small dyadic rationals
    whose float64 sums are exact).  [rg] = the observed Out lists, [rws] = the observed OutWeight
-   bit patterns. *)
+   bit patterns; the line ends with pure = 1 and the argument graph after the call (= g). *)
 Definition simplify_case_ok (rest : list Z) : Prop :=
-  exists g weighted ws rg rws wg obs, parse_simplify rest = Some ((g, weighted, ws, 0%Z, rg, rws, 1%Z), []) /\
+  exists g weighted ws rg rws wg obs,
+    rest = enc_graph g ++ weighted :: enc_Zss ws ++ 0%Z :: enc_graph rg ++ enc_Zss rws ++ 1%Z :: enc_graph g /\
     g_wf g /\
     (if (weighted =? 0)%Z then wg = unit_weights g
      else Forall2 (fun tw a => wadj_decodes (fst tw) (snd tw) a) (combine g ws) wg /\ length ws = length g) /\
@@ -186,7 +190,7 @@ Proof.
   repeat match goal with H : (_ =? _)%Z = true |- _ => apply Z.eqb_eq in H end.
   match goal with H : (_ =? _)%nat = true |- _ => apply Nat.eqb_eq in H; rename H into HL end.
   match goal with H : wgraph_eqb _ _ = true |- _ => apply wgraph_eqb_spec in H; rename H into HE end.
-  subst. split; [reflexivity|]. split; [reflexivity|].
+  geq. subst. split; [reflexivity|]. split; [reflexivity|].
   destruct (zipwg_spec _ _ _ Eobs) as (O1 & O2 & O3).
   assert (Hfst : map (map fst) wg = a).
   { destruct (a0 =? 0)%Z; [injection Ewg as <-; unfold unit_weights; rewrite map_map; rewrite <- (map_id a) at 2; apply map_ext; intro x; rewrite map_map; apply map_id | eapply zipwg_fst; eauto]. }
@@ -195,7 +199,7 @@ Proof.
     clear - HE. remember (map simplify_adj wg) as m eqn:Em. revert wg Em. induction HE; intros [|w wg] Em; cbn in Em; try discriminate; constructor.
     - injection Em as -> _. apply simp_row_sound. assumption.
     - injection Em as _ ->. apply IHHE. reflexivity. }
-  exists a, a0, a1, a3, a4, wg, obs. split; [unfold parse_simplify; prebuild|].
+  exists a, a0, a1, a3, a4, wg, obs. split; [lay; subst; rewrite ?app_nil_r; reflexivity|].
   split; [exact Ewf|]. split.
   { destruct (a0 =? 0)%Z; [injection Ewg as <-; reflexivity|]. destruct (zipwg_spec _ _ _ Ewg) as (? & ? & ?). auto. }
   split; [exact Hfst|]. split; [exact O1|]. split; [exact O2|]. split; [lia|]. split; [exact Hrows|].
